@@ -181,18 +181,26 @@ theorem diagonal_size (A : CRS K) (invert : Bool) : (diagonal A invert).size = A
 /-- entry `i` of `diagonal A invert` in terms of the `find?` of the model -/
 theorem diagonal_getD (A : CRS K) (invert : Bool) (i : Nat) (hi : i < A.nrows) :
     (diagonal A invert).getD i none =
-      ((A.row i).find? (fun cv => decide (cv.1 = i))).map
-        (fun cv => if invert then (if cv.2 = 0 then 1 else cv.2⁻¹) else cv.2) := by
+      some ((((A.row i).find? (fun cv => decide (cv.1 = i))).map
+        (fun cv => if invert then (if cv.2 = 0 then 1 else cv.2⁻¹) else cv.2)).getD (if invert then 1 else 0)) := by
   unfold diagonal
   rw [getD_ofFn_lt' _ _ _ hi]
   dsimp only
   cases (A.row i).find? (fun cv => decide (cv.1 = i)) <;> rfl
 
-/-- the entry stays uninitialised iff the row stores no diagonal entry -/
-theorem diagonal_none_iff (A : CRS K) (invert : Bool) (i : Nat) (hi : i < A.nrows) :
-    (diagonal A invert).getD i none = none ↔ i ∉ (A.row i).map (·.1) := by
-  rw [diagonal_getD A invert i hi, Option.map_eq_none_iff, List.find?_eq_none]
-  simp only [decide_eq_true_eq, List.mem_map, not_exists, not_and]
+/-- every entry is written -/
+theorem diagonal_ne_none (A : CRS K) (invert : Bool) (i : Nat) (hi : i < A.nrows) :
+    (diagonal A invert).getD i none ≠ none := by
+  rw [diagonal_getD A invert i hi]; exact Option.some_ne_none _
+
+/-- a row that stores no diagonal entry gets the value of a zero diagonal: `0`, resp. the identity when inverted -/
+theorem diagonal_missing (A : CRS K) (invert : Bool) (i : Nat) (hi : i < A.nrows) (h : i ∉ (A.row i).map (·.1)) :
+    (diagonal A invert).getD i none = some (if invert then 1 else 0) := by
+  have hf : (A.row i).find? (fun cv => decide (cv.1 = i)) = none := by
+    rw [List.find?_eq_none]
+    intro x hx hxi
+    exact h (List.mem_map.2 ⟨x, hx, by simpa using hxi⟩)
+  rw [diagonal_getD A invert i hi, hf]; rfl
 
 /-- the FIRST stored diagonal entry is used, whatever follows -/
 theorem diagonal_first (A : CRS K) (invert : Bool) (i : Nat) (hi : i < A.nrows)
